@@ -120,7 +120,7 @@ def gen_case(seed, tier, index=0):
         t += datetime.timedelta(seconds=rng.pick([1, 30, 3600, 86400 * 20, 86400 * 200, 86400 * 400, 86400 * 800]))
     files = [{"path": name, "content": content}] + A.template_files(sorted(tnames))
     for e in extras:
-        files.append({"path": e, "content": {"zz/data.json": "{}\n", "zz/other.py": "import sys\n", "zz/logo.png": "\x89PNG\x00\x00\udcff",
+        files.append({"path": e, "content": {"zz/data.json": "{}\n", "zz/other.py": "import sys\n", "zz/logo.png": G.BINARY,
                                              "zz/notes.txt": "notes\n"}[e]})
     steps = [{"argv": ["--version"], "observe": [{"kind": "reuse_info", "path": p} for n in [name] + extras for p in (n, n + ".license")]}] + steps
     return {"prop": PROP, "seed": seed, "world": {"files": files}, "style": style, "name": name, "names": [name] + extras, "dot_license": dot_license,
